@@ -75,6 +75,8 @@ func cmdRegoCheck(args []string) {
 		progs = regosym.FamilySkeletons(1)
 	case "skel2":
 		progs = regosym.FamilySkeletons(2)
+	case "varidx":
+		progs = regosym.FamilyVariableIndex([]int{1, 2, 12, 22, 23, 24, 25, 26})
 	}
 	if len(args) > 1 {
 		var n int
@@ -103,7 +105,7 @@ func cmdRegoCheck(args []string) {
 }
 
 // runPaths checks every path expression in every generator mode.
-func runPaths(work string, paths []regosym.Path, modes []string, n, slots, workers int) ([]regosym.Outcome, error) {
+func runPaths(work string, paths []regosym.Path, modes []string, nFor func(regosym.Path) int, slots, workers int) ([]regosym.Outcome, error) {
 	drv, err := regosym.BuildDriver(repoDir, verifDir(), work)
 	if err != nil {
 		return nil, err
@@ -164,7 +166,7 @@ func runPaths(work string, paths []regosym.Path, modes []string, n, slots, worke
 					outs[i] = regosym.Outcome{Program: j.mode + ":" + regosym.PathString(j.path), Profile: texts[i], Status: "generate-error", Label: "C07.module-compiles", Detail: gens[i].Error}
 					continue
 				}
-				sc := regosym.ScopeFor(j.prog, n, slots, 1)
+				sc := regosym.ScopeFor(j.prog, nFor(j.path), slots, 1)
 				outs[i] = c.CheckPath(j.path, j.mode, sc, gens[i].Code, texts[i])
 			}
 		}()
@@ -191,7 +193,7 @@ func cmdRegoPaths(args []string) {
 		}
 	}
 	t0 := time.Now()
-	outs, err := runPaths(work, paths, []string{"set", "nodes", "array"}, n, 2, 16)
+	outs, err := runPaths(work, paths, []string{"set", "nodes", "array"}, func(regosym.Path) int { return n }, 2, 16)
 	if err != nil {
 		fmt.Fprintln(os.Stderr, err)
 		os.Exit(2)
